@@ -21,6 +21,9 @@ run_one() { # <patchfile> <prop> <want-or-empty> <label>
   # the full check of the property (all units) is what seeded/run_all.sh and the checks themselves run
   FILES=$(grep '^+++ b/' "$1" | sed 's|^+++ b/||' | tr '\n' ',' | sed 's/,$//')
   out=$("$V/bin/govc" -repo "$S/repo" -verif "$S/verif" -prop "$2" -files "$FILES" 2>&1)
+  # (a change of a TYPE - a method removed, a field changed - can change a caller's verdict: when the
+  # touched units report nothing, every unit of the property is run)
+  if ! echo "$out" | grep -q "VIOLATION"; then out=$("$V/bin/govc" -repo "$S/repo" -verif "$S/verif" -prop "$2" 2>&1); fi
   out="$out
 $(GOVC_REPO="$S/repo" GOVC_VERIF_OUT="$S/verif" "$V/standins/run.sh" "$2" quick "$S/extra.json" 2>&1)"
   echo run >> "$S/count"
